@@ -141,12 +141,21 @@ def proof_status(pid, files=None):
         # the output of Print Assumptions is cached, keyed by the sources of the file's transitive imports
         cache = os.path.join(COQ, "Props", f[:-2] + ".out")
         key = closure_key(os.path.join("Props", f))
-        cached = open(cache).read() if os.path.exists(cache) else ""
-        if cached.startswith("KEY " + key + "\n") and os.path.exists(os.path.join(COQ, "Props", f[:-2] + ".vo")):
-            rc, out, err = 0, cached.split("\n", 1)[1], ""
-        else:
-            rc, out, err = sh("timeout 1800 coqc -Q . SK Props/%s" % f, cwd=COQ)
-            if rc == 0: open(cache, "w").write("KEY " + key + "\n" + out)
+        def read_cache():
+            cached = open(cache).read() if os.path.exists(cache) else ""
+            return cached.split("\n", 1)[1] if cached.startswith("KEY " + key + "\n") and os.path.exists(os.path.join(COQ, "Props", f[:-2] + ".vo")) else None
+        out = read_cache(); rc, err = 0, ""
+        if out is None:
+            # one compiler per file at a time: checks running side by side would otherwise write the same .vo/.out together
+            import fcntl
+            with open(os.path.join(COQ, "Props", "." + f[:-2] + ".lock"), "w") as lk:
+                fcntl.flock(lk, fcntl.LOCK_EX)
+                out = read_cache()
+                if out is None:
+                    rc, out, err = sh("timeout 1800 coqc -Q . SK Props/%s" % f, cwd=COQ)
+                    if rc == 0:
+                        with open(cache + ".tmp%d" % os.getpid(), "w") as fh: fh.write("KEY " + key + "\n" + out)
+                        os.replace(cache + ".tmp%d" % os.getpid(), cache)
         if rc != 0:
             problems.append("Props/%s does not compile: %s" % (f, (out + err)[-600:]))
             for n in names: theorems[n] = None
